@@ -1,6 +1,6 @@
 (* Roots/Model.v — the sector-root lists of contracts (properties C03 and C13).
 
-   Mirrors, as they are in /repo at 4115bc1 (which contains fixes/C03-updater-stale-oldroots.patch
+   Mirrors, as they are in /repo at 13cd476 (which contains fixes/C03-updater-stale-oldroots.patch
    as 5090bdc — the model's Commit1 rebases u_old — and fixes/C13-rhp2-session-stale-after-renew.patch
    as ba53b85, which is what makes the RHP2 handler honour the callers' discipline of ProofsInv.v):
      host/contracts/contracts.go   ContractUpdater: AppendSector, SwapSectors, TrimSectors,
@@ -450,6 +450,9 @@ Definition set_upds (s : state) (u : list (N * updater)) : state :=
 Definition set_locks (s : state) (l : list cid) : state :=
   {| dbs := dbs s; cache := cache s; upds := upds s; locks := l; height := height s |}.
 
+(* delete(cm.sectorRoots, id) *)
+Definition cdel {V} (k : N) (l : list (N * V)) : list (N * V) := filter (fun p => negb (fst p =? k)) l.
+
 (* getSectorRoots: a missing entry is nil *)
 Definition cache_get (s : state) (id : cid) : list root :=
   match alookup id (cache s) with Some l => l | None => [] end.
@@ -610,7 +613,8 @@ Definition step (s : state) (o : op) : state * obs :=
   | Close1 u => (set_upds s (aremove u (upds s)), ORes (Ok tt))
   | Renew1 old new crev cfsize cmroot nrev nfsize nmroot nws mold fault =>
       outcome s (m_renew1 s old new crev cfsize cmroot nrev nfsize nmroot nws mold fault)
-        (fun d => set_cache (set_dbs s d) (aset new (cache_get s old) (cache s)))
+        (* setSectorRoots(renewal), then deleteSectorRoots(existing) (13cd476) *)
+        (fun d => set_cache (set_dbs s d) (cdel old (aset new (cache_get s old) (cache s))))
   | Revise2 id c newroots mnew rsig hsig fault =>
       outcome s (m_revise2 s id c newroots mnew rsig hsig fault)
         (fun d => set_cache (set_dbs s d) (aset id newroots (cache s)))
